@@ -159,7 +159,7 @@ func (e *Engine) verifyFunction(fn *ssa.Function, ct *Contract, sweepOnly bool) 
 	if ct != nil {
 		// vacuity guard: every call pattern of the contract must match a call site
 		for _, cl := range append(append([]*Clause{}, ct.Tracks...), ct.AtCalls...) {
-			if !x.matched[cl.Callee] {
+			if !x.matched[cl.Callee] && !cl.Optional {
 				x.specErrors = append(x.specErrors, fmt.Sprintf("%s: call pattern %q matches no call site (vacuous clause)", key, cl.Callee))
 			}
 		}
